@@ -18,6 +18,7 @@ grammar: `*`, plain decimal 0..255 without leading zero, `x-y` with plain decima
 `GlobGrammar`.  Model: Model/Glob.lean, Model/Nmap.lean.
 -/
 import NetaddrVerif.Lemmas.C17LConv
+import NetaddrVerif.Lemmas.C17LNmap
 namespace NV.C17
 open NV NV.Glob
 
@@ -84,5 +85,222 @@ example : GlobMatches "192.0.2-3.*".toList 3221226000 :=
   ⟨.lit 192, .lit 0, .hyp 2 3, .star, by decide +kernel, by decide,
     by simp [Oct.matches, Oct.lo, Oct.hi], by simp [Oct.matches, Oct.lo, Oct.hi],
     by simp [Oct.matches, Oct.lo, Oct.hi], by simp [Oct.matches, Oct.lo, Oct.hi]⟩
+
+/-! ## nmap target specifications -/
+open NV.Nmap
+
+/-- the exception classes `valid_nmap_range` catches -/
+def caught (e : Err) : Prop := e = .type_ ∨ e = .value ∨ e = .addrFormat
+instance (e : Err) : Decidable (caught e) := by unfold caught; infer_instance
+
+theorem netIter_one (n : Net) : netIter n 1 = [n.first] := by
+  have h : n.first ≤ n.last := by
+    unfold Net.first Net.last netFirst netLast
+    exact Nat.le_trans Nat.and_le_left Nat.left_le_or
+  have : min (n.last + 1 - n.first) 1 = 1 := by omega
+  simp [netIter, this]
+
+/-- `valid_nmap_range(spec)` is True exactly when `iter_nmap_range(spec)` succeeds (for every
+    pair of foreign parsers, every spec, every positive number of items taken): it is False
+    exactly when iteration raises one of the caught classes, and it lets the same exception
+    through otherwise. -/
+theorem nmap_valid_iff_iter_ok (F : Foreign) (fuel : Nat) (hf : 0 < fuel) (spec : List Char) :
+    validNmapRange F spec =
+      match iterNmapRange F fuel spec with
+      | .ok _ => .ok true
+      | .error e => if caught e then .ok false else .error e := by
+  unfold validNmapRange iterNmapRange parseTargetSpec caught
+  by_cases h1 : spec.contains '/' = true
+  · simp only [h1, if_true]
+    cases Py.pyInt 10 (split1 '/' spec).2 with
+    | none => simp
+    | some p =>
+      simp only
+      by_cases hg : (0 < p ∧ p < 33)
+      · simp only [hg, and_self, not_true_eq_false, if_false]
+        cases F.ipNetwork spec with
+        | error e => simp only
+        | ok net =>
+          simp only
+          by_cases hv : net.ver ≠ 4
+          · simp [hv]
+          · simp only [hv, if_false, netIter_one, List.map_cons, List.map_nil]
+      · simp [hg]
+  · simp only [h1, Bool.false_eq_true, if_false]
+    by_cases h2 : spec.contains ':' = true
+    · simp only [h2, if_true]
+      cases F.ipAddress spec with
+      | error e => simp only
+      | ok a =>
+        have : [a].take fuel = [a] := by
+          cases fuel with
+          | zero => omega
+          | succ n => simp
+        simp
+    · simp only [h2, Bool.false_eq_true, if_false]
+      cases hgen : generateOctetRanges spec with
+      | error e => simp only
+      | ok rs =>
+        obtain ⟨_, t0, t1, t2, t3, l0, l1, l2, l3, _, hrs, h0, h1', h2', h3⟩ := generate_ok hgen
+        subst hrs
+        have ne : ∀ t l, octetTargetValues t = .ok l → l ≠ [] := by
+          intro t l h
+          rcases octetTargetValues_cases t with ⟨_, l', h', hne, _⟩ | ⟨_, h'⟩
+          · rw [h] at h'; simp only [Except.ok.injEq] at h'; subst h'; exact hne
+          · rw [h] at h'; exact absurd h' (by simp)
+        have hne := fullProduct_ne_nil l0 l1 l2 l3 (ne _ _ h0) (ne _ _ h1') (ne _ _ h2') (ne _ _ h3)
+        simp only [product4_eq]
+        cases hfp : fullProduct l0 l1 l2 l3 with
+        | nil => exact absurd hfp hne
+        | cons a t => simp
+
+/-- SPEC: the octet-list form is well formed: non-empty, four dot-separated comma/hyphen lists,
+    every element an in-range `n`, `a-b`, `-b`, `a-` or `-` -/
+def NmapOctetsWF (spec : List Char) : Prop :=
+  spec ≠ [] ∧ ∃ t0 t1 t2 t3, spec.splitOn '.' = [t0, t1, t2, t3] ∧ OctetWF t0 ∧ OctetWF t1 ∧ OctetWF t2 ∧ OctetWF t3
+
+/-- SPEC: address `a` belongs to the octet-list spec: every octet of `a` belongs to that octet's list -/
+def NmapDen (spec : List Char) (a : Nat) : Prop :=
+  ∃ t0 t1 t2 t3, spec.splitOn '.' = [t0, t1, t2, t3] ∧ a < 2 ^ 32 ∧ OctetDen t0 (a / 2 ^ 24 % 256) ∧
+    OctetDen t1 (a / 2 ^ 16 % 256) ∧ OctetDen t2 (a / 2 ^ 8 % 256) ∧ OctetDen t3 (a % 256)
+
+/-- octet-list form, well formed: iteration yields the first `fuel` items of a non-empty, strictly
+    ascending (hence duplicate-free) list whose members are exactly the IPv4 addresses all of whose
+    octets belong to the corresponding octet list -/
+theorem nmap_yields (F : Foreign) (fuel : Nat) (spec : List Char)
+    (h1 : '/' ∉ spec) (h2 : ':' ∉ spec) (hwf : NmapOctetsWF spec) :
+    ∃ full : List Nat, iterNmapRange F fuel spec = .ok ((full.take fuel).map (fun v => ⟨4, v⟩)) ∧
+      full ≠ [] ∧ full.Pairwise (· < ·) ∧ ∀ a, a ∈ full ↔ NmapDen spec a := by
+  obtain ⟨hne, t0, t1, t2, t3, hsp, w0, w1, w2, w3⟩ := hwf
+  obtain ⟨l0, e0, n0, s0, b0, d0⟩ := octetTargetValues_ok t0 w0
+  obtain ⟨l1, e1, n1, s1, b1, d1⟩ := octetTargetValues_ok t1 w1
+  obtain ⟨l2, e2, n2, s2, b2, d2⟩ := octetTargetValues_ok t2 w2
+  obtain ⟨l3, e3, n3, s3, b3, d3⟩ := octetTargetValues_ok t3 w3
+  have c1 : spec.contains '/' = false := by
+    rw [Bool.eq_false_iff]; intro h; exact h1 (List.contains_iff_mem.1 h)
+  have c2 : spec.contains ':' = false := by
+    rw [Bool.eq_false_iff]; intro h; exact h2 (List.contains_iff_mem.1 h)
+  have hgen : generateOctetRanges spec = .ok [l0, l1, l2, l3] := by
+    have he : spec.isEmpty = false := by cases spec with
+      | nil => exact absurd rfl hne
+      | cons _ _ => rfl
+    unfold generateOctetRanges
+    simp only [he, Bool.false_eq_true, if_false, hsp, List.length_cons, List.length_nil, Nat.zero_add,
+      Nat.reduceAdd, ne_eq, not_true_eq_false, mapM_exc_cons, mapM_exc_nil, e0, e1, e2, e3]
+  refine ⟨fullProduct l0 l1 l2 l3, ?_, fullProduct_ne_nil _ _ _ _ n0 n1 n2 n3,
+    fullProduct_sorted _ _ _ _ s0 s1 s2 s3 b1 b2 b3, ?_⟩
+  · simp only [iterNmapRange, parseTargetSpec, c1, c2, Bool.false_eq_true, if_false, hgen, product4_eq]
+  · intro a
+    rw [mem_fullProduct _ _ _ _ b0 b1 b2 b3, d0, d1, d2, d3]
+    constructor
+    · rintro ⟨ha, m0, m1, m2, m3⟩; exact ⟨t0, t1, t2, t3, hsp, ha, m0, m1, m2, m3⟩
+    · rintro ⟨u0, u1, u2, u3, hsp', ha, m0, m1, m2, m3⟩
+      rw [hsp] at hsp'
+      simp only [List.cons.injEq, and_true] at hsp'
+      obtain ⟨rfl, rfl, rfl, rfl⟩ := hsp'
+      exact ⟨ha, m0, m1, m2, m3⟩
+
+instance (tok : List Char) : Decidable (OctetWF tok) := by unfold OctetWF; infer_instance
+
+/-- foreign parsers that reject everything (the octet-list form never calls them) -/
+def noForeign : Foreign := ⟨fun _ => .error .other, fun _ => .error .other⟩
+
+example : NmapOctetsWF "10.0.0-1.1,3-5,-2".toList :=
+  ⟨by decide, "10".toList, "0".toList, "0-1".toList, "1,3-5,-2".toList, by decide +kernel,
+    by decide +kernel, by decide +kernel, by decide +kernel, by decide +kernel⟩
+example : iterNmapRange noForeign 4096 "10.0.0-1.4,2-3,3".toList =
+    .ok [⟨4, 167772162⟩, ⟨4, 167772163⟩, ⟨4, 167772164⟩, ⟨4, 167772418⟩, ⟨4, 167772419⟩, ⟨4, 167772420⟩] := by
+  decide +kernel
+example : ¬ OctetWF "3-2".toList := by decide +kernel
+example : ¬ OctetWF "1,256".toList := by decide +kernel
+example : validNmapRange noForeign "10.0.0.3-2".toList = .ok false := by decide +kernel
+
+/-- octet-list form, malformed (empty spec, not four lists, or a malformed element): iteration
+    raises ValueError or AddrFormatError before the first item, and `valid_nmap_range` is False -/
+theorem nmap_rejects (F : Foreign) (fuel : Nat) (spec : List Char)
+    (h1 : '/' ∉ spec) (h2 : ':' ∉ spec) (hwf : ¬ NmapOctetsWF spec) :
+    (∃ e, iterNmapRange F fuel spec = .error e ∧ (e = .value ∨ e = .addrFormat)) ∧
+      validNmapRange F spec = .ok false := by
+  have c1 : spec.contains '/' = false := by
+    rw [Bool.eq_false_iff]; intro h; exact h1 (List.contains_iff_mem.1 h)
+  have c2 : spec.contains ':' = false := by
+    rw [Bool.eq_false_iff]; intro h; exact h2 (List.contains_iff_mem.1 h)
+  have key : ∀ fuel, ∃ e, iterNmapRange F fuel spec = .error e ∧ (e = .value ∨ e = .addrFormat) := by
+    intro fuel
+    cases hgen : generateOctetRanges spec with
+    | error e =>
+      exact ⟨e, by simp only [iterNmapRange, parseTargetSpec, c1, c2, Bool.false_eq_true, if_false, hgen],
+        generate_err hgen⟩
+    | ok rs =>
+      exfalso
+      obtain ⟨hne, t0, t1, t2, t3, l0, l1, l2, l3, hsp, _, h0, h1', h2', h3⟩ := generate_ok hgen
+      have wf : ∀ t l, octetTargetValues t = .ok l → OctetWF t := by
+        intro t l h
+        rcases octetTargetValues_cases t with ⟨w, _⟩ | ⟨_, h'⟩
+        · exact w
+        · rw [h] at h'; exact absurd h' (by simp)
+      exact hwf ⟨hne, t0, t1, t2, t3, hsp, wf _ _ h0, wf _ _ h1', wf _ _ h2', wf _ _ h3⟩
+  refine ⟨key fuel, ?_⟩
+  obtain ⟨e, he, hc⟩ := key 1
+  rw [nmap_valid_iff_iter_ok F 1 (by omega) spec, he]
+  have : caught e := by rcases hc with h | h <;> simp [caught, h]
+  simp [this]
+
+/-- CIDR form (`/` in the spec): the prefix text must be an `int()` in 1..32 (else ValueError /
+    AddrFormatError), the foreign `IPNetwork(spec)` must accept it as IPv4 (else its error /
+    AddrFormatError); iteration then yields, ascending, exactly the addresses `first..last` of
+    that network -/
+theorem nmap_cidr (F : Foreign) (fuel : Nat) (spec : List Char) (h1 : '/' ∈ spec) :
+    iterNmapRange F fuel spec =
+      match Py.pyInt 10 (split1 '/' spec).2 with
+      | none => .error .value
+      | some p =>
+        if ¬ (0 < p ∧ p < 33) then .error .addrFormat
+        else match F.ipNetwork spec with
+          | .error e => .error e
+          | .ok net =>
+            if net.ver ≠ 4 then .error .addrFormat
+            else .ok ((((List.range (net.last + 1 - net.first)).map (net.first + ·)).take fuel).map (fun v => ⟨4, v⟩)) := by
+  have c1 : spec.contains '/' = true := List.contains_iff_mem.2 h1
+  simp only [iterNmapRange, parseTargetSpec, c1, if_true, netIter]
+  cases Py.pyInt 10 (split1 '/' spec).2 with
+  | none => rfl
+  | some p =>
+    simp only
+    split
+    · rfl
+    · cases F.ipNetwork spec with
+      | error e => rfl
+      | ok net =>
+        simp only
+        split
+        · rfl
+        · rw [← List.map_take, List.take_range, Nat.min_comm]
+
+theorem cidr_block_members (first last a : Nat) :
+    a ∈ (List.range (last + 1 - first)).map (first + ·) ↔ first ≤ a ∧ a ≤ last := by
+  simp only [List.mem_map, List.mem_range]
+  constructor
+  · rintro ⟨i, hi, rfl⟩; omega
+  · intro h; exact ⟨a - first, by omega, by omega⟩
+
+theorem cidr_block_sorted (first n : Nat) : ((List.range n).map (first + ·)).Pairwise (· < ·) := by
+  rw [List.pairwise_map]
+  exact List.pairwise_lt_range.imp (fun h => by omega)
+
+/-- address form (`:` and no `/` in the spec): exactly the one address the foreign
+    `IPAddress(spec)` returns, or its error -/
+theorem nmap_addr (F : Foreign) (fuel : Nat) (hf : 0 < fuel) (spec : List Char) (h1 : '/' ∉ spec) (h2 : ':' ∈ spec) :
+    iterNmapRange F fuel spec = (F.ipAddress spec).map (fun a => [a]) := by
+  have c1 : spec.contains '/' = false := by
+    rw [Bool.eq_false_iff]; intro h; exact h1 (List.contains_iff_mem.1 h)
+  have c2 : spec.contains ':' = true := List.contains_iff_mem.2 h2
+  simp only [iterNmapRange, parseTargetSpec, c1, c2, Bool.false_eq_true, if_false, if_true]
+  cases F.ipAddress spec with
+  | error e => rfl
+  | ok a =>
+    cases fuel with
+    | zero => omega
+    | succ n => simp [Except.map]
 
 end NV.C17
